@@ -385,6 +385,8 @@ def obj_ops_alphabet():
         ("writeres", 1, "llh"), ("mask", 3, None), ("derived", "L", "zenith_distance"), ("setitem", "L", 3),
         ("tindex", 6, 1), ("tindex", 6, -1), ("tmax", 6, None), ("tview", 6, 0), ("tview", 6, 2), ("tconv", 6, "tai"),
         ("tconv", "T", "tai"), ("tconv", "T", "gps"), ("tconv", 7, "tai"), ("tconv", 8, "tai"), ("tfmt", "T", "mjd"), ("tslice", 6, (1, 3)),
+        # position deltas: conversions depend on the reference position
+        ("conv", 9, "enu"), ("conv", 9, "trs"), ("setitem", 10, 4), ("setref", 9, 5), ("conv", 11, "enu"), ("setitem", 11, 1),
     ]
 
 
@@ -406,6 +408,11 @@ def build_objects(mods):
     objs.append(tj)                                                  # 6 time array, format jd
     objs.append(Time(tj.datetime, fmt="datetime", scale="utc"))      # 7 equal epochs, format datetime
     objs.append(Time(jd1[0], val2=jd2[0], fmt="jd", scale="utc"))    # 8 scalar equal to element 0
+    PD = position.PositionDelta
+    ref = P(palette_xyz(3, (4, 3)), system="trs")
+    objs.append(PD(np.array([[10.0, 20.0, 30.0], [1.0, -2.0, 3.0], [0.5, 0.25, -7.0], [100.0, 0.0, 0.0]]), system="trs", ref_pos=ref))  # 9
+    objs.append(ref)                                                 # 10 reference position of 9
+    objs.append(PD(np.array([5.0, -6.0, 7.0]), system="trs", ref_pos=P(palette_xyz(4, (3,)), system="trs")))  # 11 single delta
     return objs
 
 
@@ -442,6 +449,9 @@ def run_obj_history(w: ObjWorld, ops, rng_state=None):
             elif kind == "setother":
                 o.other = w.objs[arg]
                 obs.append(("setother",))
+            elif kind == "setref":
+                o.ref_pos = w.objs[arg]
+                obs.append(("setref",))
             elif kind == "slice":
                 r = o[arg[0]:arg[1]]
                 w.objs.append(r)
@@ -554,6 +564,14 @@ def run(ctx: Ctx):
     seqs = list(itertools.product(alphabet, repeat=LB))
     if not ctx.thorough:
         pass
+    # read – change – read again, for every reading and every changing operation (and through a row view)
+    reads = [o for o in alphabet if o[0] in ("conv", "derived", "tconv", "tfmt")]
+    muts = [o for o in alphabet if o[0] in ("setitem", "setother", "setref", "writeres")]
+    for r in reads:
+        for m in muts:
+            seqs.append((r, m, r))
+        if isinstance(r[1], int) and r[1] in (0, 3, 9):
+            seqs.append((r, ("slice", r[1], (0, 2)), ("setitem", "L", 3), r))
     for _ in range(ctx.budget(150, 4000)):
         seqs.append(tuple(rng.choice(alphabet) for _ in range(rng.randint(3, 12))))
     for seq in seqs:
